@@ -95,13 +95,25 @@ def pipelines(rng, utts, p, s, n_timed=None):
                  ["torch_token_data_dir_to_textgrids", ["{tok}", "{i2t}", "{tg2}", "--infer"] + na, "wc"]]))
 
     # 5. subset (shortest-n reads the lengths through a DataLoader, then copies through the pool;
-    #    first-ratio goes straight to the pool)
+    #    first-ratio and the --utt-list forms go straight to the pool) on a directory that is NOT a
+    #    consistent SpectDataSet: ali/ covers part of the utterances and has one that feat/ lacks,
+    #    ref/ lacks the first utterance, has the stray too and a name that does not match; requests
+    #    name utterances of feat/, the stray and an id that exists nowhere
     feat = {p + u + s: tensor([[float(i)] * 2] * rng.randint(1, 4), None, "float32") for i, u in enumerate(utts)}
     ali = {p + u + s: tensor([i, i]) for i, u in enumerate(utts[:4])}
-    crit = rng.choice([["--shortest-n", str(N // 2 + 1)], ["--first-ratio", "0.75"], ["--longest-n", str(N + 1)]])
-    out.append(("subset " + " ".join(crit),
-                {"src": {"type": "tensor_dir", "files": {"feat": feat, "ali": ali}}}, ["dest"],
-                [["subset_torch_spect_data_dir", ["{src}", "{dest}", "--copy"] + crit + na, "wc"]]))
+    ali[p + "zz_stray" + s] = tensor([7, 7, 7])
+    ref = {p + u + s: tensor([[1, 0, i + 1]], [1, 3]) for i, u in enumerate(utts[1:])}
+    ref[p + "zz_stray" + s] = tensor([[2, 0, 3]], [1, 3])
+    ref["notes.txt"] = tensor([0])
+    asked = [u for u in utts if rng.random() < 0.7] + ["zz_stray", "nowhere"]
+    rng.shuffle(asked)
+    crit = rng.choice([["--shortest-n", str(N // 2 + 1)], ["--first-ratio", "0.75"], ["--longest-n", str(N + 1)],
+                       ["--utt-list"] + asked, ["--utt-list-file", "{utt_list}"], ["--utt-list"] + asked])
+    mode = rng.choice([["--copy"], ["--copy"], ["--symlink"], []])
+    out.append(("subset " + " ".join(crit[:1] + mode),
+                {"src": {"type": "tensor_dir", "files": {"feat": feat, "ali": ali, "ref": ref}},
+                 "utt_list": {"type": "text", "text": "".join(u + "\n" for u in asked)}}, ["dest"],
+                [["subset_torch_spect_data_dir", ["{src}", "{dest}"] + mode + crit + na, "wc"]]))
 
     # 6. length moments of ali and ref
     refs = {}
@@ -123,13 +135,18 @@ def pipelines(rng, utts, p, s, n_timed=None):
                               "id2gid": {"type": "text", "text": id2gid}}, ["stats_pt"],
                 [["compute_mvn_stats_for_torch_feat_data_dir", ["{feat}", "{stats_pt}", "--id2gid", "{id2gid}"] + na, "w"]]))
 
-    # 8. chunking a SpectDataSet directory (feat + ali + ref) into windows
+    # 8. chunking a SpectDataSet directory (feat + ali + ref) into windows; the directory is not
+    #    consistent: ali/ has an utterance feat/ lacks, ref/ lacks the last utterance of a corpus of
+    #    three (SpectDataSet keeps the utterances every sub-directory has), feat/ has one more
     cfeat, cali, cref = {}, {}, {}
     for i, u in enumerate(utts):
         T = rng.randint(2, 6)
         cfeat[p + u + s] = tensor([[float(i), float(t)] for t in range(T)], None, "float32")
         cali[p + u + s] = tensor([(t // 2) % 3 for t in range(T)])
-        cref[p + u + s] = tensor([[1, 0, T // 2], [2, T // 2, T]], [2, 3])
+        if i < 2 or N != 3:
+            cref[p + u + s] = tensor([[1, 0, T // 2], [2, T // 2, T]], [2, 3])
+    cali[p + "zz_stray" + s] = tensor([1, 1, 2])
+    cfeat[p + "zz_featonly" + s] = tensor([[9.0, 0.0], [9.0, 1.0]], None, "float32")
     policy = rng.choice([["--policy", "fixed", "--lobe-size", "1"], ["--policy", "ali"], ["--policy", "ref"],
                          ["--policy", "fixed", "--lobe-size", "1", "--pad-mode", "replicate"]])
     out.append(("chunk " + " ".join(policy),
